@@ -166,7 +166,7 @@ fn run_big_then_small(extra: usize) {
 #[test]
 fn verif_sweep_c03_c06_big_frames_then_small_ones() {
     for &extra in &[1usize, 3, 6] {
-        run_big_then_small(extra);
+        with_watchdog(format!("big frames, extra={}", extra), 120, move || run_big_then_small(extra));
     }
 }
 
@@ -175,7 +175,7 @@ fn verif_sweep_c03_c06_inbound_content_under_every_segmentation() {
     let mut count = 0;
     for &read_chunk in &[Some(1usize), Some(2), Some(7), Some(100), Some(4096), None] {
         for &uneven in &[false, true] {
-            run(read_chunk, uneven);
+            with_watchdog(format!("read_chunk={:?} uneven={}", read_chunk, uneven), 120, move || run(read_chunk, uneven));
             count += 1;
         }
     }
